@@ -532,6 +532,7 @@ int main(int argc, char **argv)
 			nkeys++;
 			s += n; if (*s == ',') s++; else break;
 		}
+		if (*s == ',' || (nkeys == MAXK && *s && *s != ';')) vh_harness_fail("more than %d keys in the key list", MAXK);
 	}
 	for (int ki = 0; ki < nkeys; ki++)
 		if (vh_key_gen(&KA[ki], specs[ki], &rng) || vh_key_gen(&KB[ki], specs[ki], &rng))
